@@ -74,11 +74,11 @@ Proof. vm_compute. repeat split. Qed.
 (* ---- the expression round trip on token lists (partial: Printable.in_fragment) ----
    FULL STATEMENT (not proved):  forall e, printable e = true -> parse_expr_toks (print_toks np ge e) = Some e.
    PROVED: the same with the additional hypothesis in_fragment e = true, which excludes
-   a left operand that is the same left-associative operator (a && b && c, a + b + c: printed without
-   parentheses), method calls (.contains .. .hasTag, .isEmpty), extension function calls, set and
-   record literals.  Inside the fragment: all literals (incl. negative and i64::MIN, strings and
-   entity ids with arbitrary scalar values), variables, slots, !, -, == < <= in + - *, && ||,
-   if-then-else, .attr and [attr] chains, has, like, is — nested arbitrarily.
+   method calls (.contains .. .hasTag, .isEmpty), extension function calls, set and record literals.
+   Inside the fragment: all literals (incl. negative and i64::MIN, strings and entity ids with
+   arbitrary scalar values), variables, slots, !, -, == < <= in + - *, && || (including the
+   left-associative chains a && b && c, a + b + c, a - b - c, a * b * c that are printed without
+   parentheses), if-then-else, .attr and [attr] chains, has, like, is — nested arbitrarily.
    The statement with a continuation `rest` says the parser stops exactly at the end of the printed
    expression whenever the next token cannot continue an expression (follow_ok 0). *)
 Theorem c05_expr_roundtrip_partial :
@@ -105,6 +105,7 @@ Example c05_expr_roundtrip_ex :
                                   (BinApp BMul (Lit (PLong (-9223372036854775808))) (Lit (PLong 2))))))
              (Like (Var Context) [PChar 97; PStar; PChar 42])
              (Or (Is (Lit (PEntity (mkUid [[65]; [66]] [113; 34]))) [[65]; [66]])
-                 (BinApp BEq (BinApp BSub (Lit (PLong 1)) (BinApp BSub (Lit (PLong 2)) (Lit (PLong 3)))) (Lit (PLong 4)))) in
+                 (And (And (BinApp BEq (BinApp BSub (BinApp BSub (Lit (PLong 1)) (BinApp BSub (Lit (PLong 2)) (Lit (PLong 3)))) (Lit (PLong 5))) (Lit (PLong 4)))
+                           (Var Principal)) (BinApp BLess (BinApp BMul (BinApp BMul (Lit (PLong 2)) (Lit (PLong 3))) (Lit (PLong 4))) (BinApp BAdd (BinApp BAdd (Lit (PLong 1)) (Lit (PLong 1))) (Lit (PLong 1)))))) in
   printable e = true /\ in_fragment e = true /\ parse_expr_toks (print_toks np ge e) = Some e.
 Proof. vm_compute. repeat split. Qed.
